@@ -119,13 +119,12 @@ Qed.
 Lemma not_panic_pc th : is_panic th = false -> t_pc th <> PPanic.
 Proof. unfold is_panic. destruct (t_pc th); congruence. Qed.
 
-Lemma safe_step s t s' : Safe s -> step s t = Some s' -> crashed s' = true \/ Safe s'.
+Lemma safe_step_np s t th g' th' :
+  Safe s -> nth_error (ths s) t = Some th -> step_thread (sh s) t th = Some (g', th') ->
+  t_pc th' <> PPanic -> Safe {| sh := g'; ths := upd (ths s) t th' |}.
 Proof.
-  intros A H. destruct (step_decomp _ _ _ H) as (th & g' & th' & E & F & ->).
+  intros A E F P.
   assert (L : t < length (ths s)) by (eapply nth_error_Some_lt; eauto).
-  destruct (is_panic th') eqn:P.
-  { left. unfold crashed. cbn. now apply existsb_upd. }
-  right. apply not_panic_pc in P.
   pose proof (a_wf _ A _ _ E) as WF.
   pose proof (wf_step1 _ _ _ _ _ WF F P) as WF'.
   pose proof (mu_change1 _ _ _ _ _ WF F P) as MC.
@@ -155,6 +154,15 @@ Proof.
     apply (factsB_frame (sh s) g' thu Fr Mono); [|eapply a_thr; eauto].
     intros Hu. destruct Hio as [Ht|Hio]; [|exact Hio].
     pose proof (a_mu1 _ A _ _ E Ht). pose proof (a_mu1 _ A _ _ Eu' Hu). congruence.
+Qed.
+
+Lemma safe_step s t s' : Safe s -> step s t = Some s' -> crashed s' = true \/ Safe s'.
+Proof.
+  intros A H. destruct (step_decomp _ _ _ H) as (th & g' & th' & E & F & ->).
+  assert (L : t < length (ths s)) by (eapply nth_error_Some_lt; eauto).
+  destruct (is_panic th') eqn:P.
+  { left. unfold crashed. cbn. now apply existsb_upd. }
+  right. apply not_panic_pc in P. eapply safe_step_np; eauto.
 Qed.
 
 Lemma crashed_mono s t s' : step s t = Some s' -> crashed s = true -> crashed s' = true.
